@@ -815,12 +815,36 @@ func oracleC03(rep *report, r *rng) {
 					Input: inputOf(t, "value", before, "library_hex", hx(enc), "offset", sp.Off, "tag", tag)})
 				return
 			}
+			// neither the caller's value nor its mirror image: Encode put a value of its own there (a computed field).
+			// Whatever it is, the object reports it after Encode, and it must be on the wire in the protocol's order.
+			if fv := reflect.ValueOf(m).Elem().FieldByName(sp.Field); fv.IsValid() && fv.CanInterface() {
+				switch fv.Kind() {
+				case reflect.Uint8, reflect.Uint16, reflect.Uint32, reflect.Uint64, reflect.Int8, reflect.Int16, reflect.Int32, reflect.Int64:
+					v := bitsOfField(fv)
+					exp := make([]byte, sp.Len)
+					for i := 0; i < sp.Len; i++ {
+						exp[sp.Len-1-i] = byte(v >> (8 * uint(i)))
+					}
+					if pinned.Protocols[pt.Protocol].Order == "LE" {
+						exp = revEach(exp, [][2]int{{0, sp.Len}})
+					}
+					if other := revEach(exp, [][2]int{{0, sp.Len}}); bytes.Equal(got, other) && !bytes.Equal(got, exp) {
+						rep.fail(failure{Oracle: "message-order", Type: t.QName(), What: fmt.Sprintf("%s: the object reports %#x after Encode and the wire has %x: the other byte order than the protocol's (%s, expected %x)", sp.Field, v, got, pinned.Protocols[pt.Protocol].Order, exp),
+							Input: inputOf(t, "value", before, "library_hex", hx(enc), "offset", sp.Off, "tag", tag)})
+						return
+					}
+				}
+			}
 		}
 	}
 	forTypesAndEntries(r, func(t *genType, mk func(genOpts) any, tag string) {
 		for k := 0; k < n && !rep.failed(); k++ {
 			m := mk(genOpts{canonical: true, bigLists: k%3 == 1})
 			nonPalinFill(reflect.ValueOf(m).Elem(), t, r)
+			if k%4 == 3 {
+				// scalars the caller left unset: an encoder that fills one in must do so in the protocol's order
+				zeroTopScalars(reflect.ValueOf(m).Elem(), t)
+			}
 			msgCheck(t, m, tag, nil)
 		}
 	})
@@ -1136,4 +1160,14 @@ func shortStr(s string, n int) string {
 		return s
 	}
 	return fmt.Sprintf("%s...(%d characters; first %d shown)", s[:n], len(s), n)
+}
+
+// every top-level multi-byte scalar that is not a discriminator becomes 0 ("left unset by the caller")
+func zeroTopScalars(ev reflect.Value, t *genType) {
+	for i := range t.Fields {
+		f := &t.Fields[i]
+		if f.Kind == "int" && f.Tbl < 0 && !isKeyField(t, i) && ev.Field(i).Type().Size() > 1 {
+			setBits(ev.Field(i), 0)
+		}
+	}
 }
